@@ -12,7 +12,8 @@ One JSON object per input line, one JSON object per output line.
   {"op":"inst_order","links":[{"sources":[..],"target":k},...],"set_order":[t,...]}
       -> {"edges":[[s,t],...],"ok":[...]} | {"edges":...,"cycle":[u,v]}
   {"op":"components","links":[...],"set_order":[...],"dests":[...]}
-      -> {"ok":[dest,...],"schedule":[[dest,[link index,...]],...]} | {"cycle":[u,v]}
+      -> {"ok":[dest,...],"schedule":[[dest,[link index,...]],...],
+          "nested_ok":bool,"containment_covered":bool,"sources_top_level":bool} | {"cycle":[u,v]}     (the decidable classes of Core/Graph)
   {"op":"flow","links":[{"sources":[[dest,attr|null],...],"target":k,"fn":name|null,
                          "tdest":target_action.dest,"tsub":bool,"parent":{"single":[key,...]}|{"list":[[key,...]|null,...]}|{"gone":true}},...],
                "order":[...],"comps":[[dest,isClass],...]}          (tdest/tsub/parent omitted = a class-group parameter)
@@ -141,11 +142,15 @@ def step (j : Json) : Json :=
   | "components" =>
     let links := linkList j
     let so := strList j "set_order"
-    match componentOrder links so (strList j "dests") with
+    let dests := strList j "dests"
+    match componentOrder links so dests with
     | .ok comps =>
       Json.mkObj [("ok", strArr comps),
         ("schedule", .arr ((schedule links comps).map fun p =>
-          Json.arr #[.str p.1, .arr (p.2.map fun i => Json.num (JsonNumber.fromNat i)).toArray]).toArray)]
+          Json.arr #[.str p.1, .arr (p.2.map fun i => Json.num (JsonNumber.fromNat i)).toArray]).toArray),
+        ("nested_ok", .bool (decide (NestedKeysOK links so dests))),
+        ("containment_covered", .bool (decide (ContainmentCovered links so))),
+        ("sources_top_level", .bool (decide (SourcesTopLevel links dests)))]
     | .error e => Json.mkObj (topoFields (.error e))
   | "flow" =>
     let links := flinkList j
